@@ -34,6 +34,9 @@ Definition expect {X} (D : dist X) (g : X -> Q) : Q :=
 
 Definition total {X} (D : dist X) : Q := expect D (fun _ => 1%Q).
 
+(* total with reduction after every addition (for computing on large laws) *)
+Definition total_red {X} (D : dist X) : Q := fold_left (fun acc e => Qred (acc + snd e)) D 0%Q.
+
 (* ---------- the uniform law on the permutations of a list ---------- *)
 
 (* every way of taking one element out of a list *)
